@@ -384,3 +384,318 @@ Proof.
   intros ext d H x. unfold opens. destruct (closed _); [reflexivity|].
   unfold wf_header. replace (48 <=? len d) with false by (symmetry; apply N.leb_gt; exact H). reflexivity.
 Qed.
+
+(* ====================================================================================================== *)
+(* The receive loops (Model/RecvLoop.v): Server.Serve's goroutine — ReadMsgUDP into the 65535-byte buffer  *)
+(* (a longer datagram is truncated by the socket), readPacket's length guard and switch on the message     *)
+(* type, handleSessionMessage on the session table, the handshake handlers as an ABSTRACT step HS whose     *)
+(* session-table effects (createSessionFromHandshakeLocked, finishHandshake) are modelled — and             *)
+(* Client.listen / the client's handshake reads.  Events: a datagram of ANY bytes, length, type and source  *)
+(* address arrives, or the application calls into the Handle of some session.  All theorems are for every   *)
+(* event sequence (induction over the list), every AEAD, every handshake step function HS / CHS.            *)
+(* Premises: the process did not crash (l_crashed ... = false; with an AEAD that is honest about lengths    *)
+(* only a handshake handler can crash it: c10_loop_crash_only_in_handshake_handler) and no handshake        *)
+(* handler finishes session B again (no_finish; createSession can never pick B: it only picks free ids).    *)
+(* ====================================================================================================== *)
+From Hop Require Import RecvLoop RecvLoopProofs RecvLoopCorollaries.
+
+(* REFINEMENT: session B's record after the loop has processed the whole sequence is exactly what the
+   per-session history model (ep_run — the model all theorems above are about) computes from the events
+   addressed to B: evs_for is a function of the event list alone (truncate, classify, peek the session id) *)
+Theorem c03_loop_refines_session :
+  forall seal open max H HS evs st B sB,
+    lookup (l_tab H st) B = Some sB ->
+    l_crashed H (srv_run seal open max H HS st evs) = false ->
+    no_finish seal open max H HS B st evs ->
+    lookup (l_tab H (srv_run seal open max H HS st evs)) B = Some (fst (ep_run seal open max sB (evs_for B evs))).
+Proof. exact srv_loop_refines_session. Qed.
+Print Assumptions c03_loop_refines_session.
+
+Theorem c03_client_loop_refines_session :
+  forall seal open max C CHS evs s s',
+    cli_run seal open max C CHS (COpen C s) evs = COpen C s' ->
+    s' = fst (ep_run seal open max s (cli_evs_for (sid s) evs)).
+Proof. exact cli_loop_refines_session. Qed.
+Print Assumptions c03_client_loop_refines_session.
+
+(* CROSS-SESSION ISOLATION, one step: an event not addressed to B — a datagram of any type, length and source
+   carrying another session id (or none), a handshake datagram that does not finish B, a call on another
+   session's Handle — leaves B's record exactly as it was, whether or not the step crashes the process *)
+Theorem c03_loop_other_session_untouched :
+  forall seal open max H HS st e B sB,
+    lookup (l_tab H st) B = Some sB -> ev_for B e = [] -> step_quiet H HS B st e ->
+    lookup (l_tab H (srv_step seal open max H HS st e)) B = Some sB.
+Proof. exact srv_step_other_session_untouched. Qed.
+Print Assumptions c03_loop_other_session_untouched.
+
+(* ... and over whole runs (non-interference): two runs that differ in everything except the events addressed
+   to B — other sessions, their traffic, handshakes, the handshake side's state — leave B's record identical *)
+Theorem c03_loop_cross_session_isolation :
+  forall seal open max H HS st1 st2 evs1 evs2 B sB,
+    lookup (l_tab H st1) B = Some sB -> lookup (l_tab H st2) B = Some sB ->
+    l_crashed H (srv_run seal open max H HS st1 evs1) = false ->
+    l_crashed H (srv_run seal open max H HS st2 evs2) = false ->
+    no_finish seal open max H HS B st1 evs1 -> no_finish seal open max H HS B st2 evs2 ->
+    evs_for B evs1 = evs_for B evs2 ->
+    lookup (l_tab H (srv_run seal open max H HS st1 evs1)) B = lookup (l_tab H (srv_run seal open max H HS st2 evs2)) B.
+Proof. exact srv_loop_noninterference. Qed.
+Print Assumptions c03_loop_cross_session_isolation.
+
+(* C03 at the endpoint loop: B's record is the history model's; the counters of the messages put on B's
+   receive queue are pairwise distinct (and distinct from those marked before); the reader's byte stream is
+   the concatenation of the delivered messages — each of which opened under B's read key (definition of
+   delivered) — nothing twice, nothing lost; whatever else arrives at the socket *)
+Theorem c03_loop_delivery :
+  forall seal open max H HS st evs B sB A,
+    lookup (l_tab H st) B = Some sB -> l_crashed H (srv_run seal open max H HS st evs) = false ->
+    no_finish seal open max H HS B st evs ->
+    Inv (window sB) A -> Forall (fun x => x < lim) A -> NoDup A ->
+    auth_below open (key_recv sB) (evs_for B evs) ->
+    let h := evs_for B evs in
+    lookup (l_tab H (srv_run seal open max H HS st evs)) B = Some (fst (ep_run seal open max sB h)) /\
+    NoDup (map fst (delivered seal open max sB h)) /\
+    (forall c, In c (map fst (delivered seal open max sB h)) -> ~ In c A) /\
+    pending sB ++ List.concat (map snd (delivered seal open max sB h)) =
+      read_bytes (snd (ep_run seal open max sB h)) ++ pending (fst (ep_run seal open max sB h)).
+Proof. exact srv_loop_delivery. Qed.
+Print Assumptions c03_loop_delivery.
+
+Theorem c03_client_loop_delivery :
+  forall seal open max C CHS evs s s' A,
+    cli_run seal open max C CHS (COpen C s) evs = COpen C s' ->
+    Inv (window s) A -> Forall (fun x => x < lim) A -> NoDup A ->
+    auth_below open (key_recv s) (cli_evs_for (sid s) evs) ->
+    let h := cli_evs_for (sid s) evs in
+    s' = fst (ep_run seal open max s h) /\
+    NoDup (map fst (delivered seal open max s h)) /\
+    (forall c, In c (map fst (delivered seal open max s h)) -> ~ In c A) /\
+    pending s ++ List.concat (map snd (delivered seal open max s h)) =
+      read_bytes (snd (ep_run seal open max s h)) ++ pending (fst (ep_run seal open max s h)).
+Proof. exact cli_loop_delivery. Qed.
+Print Assumptions c03_client_loop_delivery.
+
+(* C10 "leaves established sessions working", session part: after ANY event sequence B's record — keys,
+   replay window, queue, address, closed flag — equals the record produced by the authentic fresh
+   subsequence alone (auth_only drops every datagram that failed a check), and every datagram of that
+   subsequence opens under B's read key with a fresh counter at the moment it arrives *)
+Theorem c10_loop_state_is_authentic_subsequence :
+  forall seal open max H HS st evs B sB,
+    lookup (l_tab H st) B = Some sB -> l_crashed H (srv_run seal open max H HS st evs) = false ->
+    no_finish seal open max H HS B st evs ->
+    let h := auth_only seal open max sB (evs_for B evs) in
+    lookup (l_tab H (srv_run seal open max H HS st evs)) B = Some (fst (ep_run seal open max sB h)) /\
+    all_authentic seal open max sB h.
+Proof. exact srv_loop_authentic_subsequence. Qed.
+Print Assumptions c10_loop_state_is_authentic_subsequence.
+
+Theorem c10_client_loop_state_is_authentic_subsequence :
+  forall seal open max C CHS evs s s',
+    cli_run seal open max C CHS (COpen C s) evs = COpen C s' ->
+    let h := auth_only seal open max s (cli_evs_for (sid s) evs) in
+    s' = fst (ep_run seal open max s h) /\ all_authentic seal open max s h.
+Proof. exact cli_loop_authentic_subsequence. Qed.
+Print Assumptions c10_client_loop_state_is_authentic_subsequence.
+
+(* the same for one session's history, whatever produced it *)
+Theorem c10_state_is_authentic_subsequence :
+  forall seal open max evs ss,
+    fst (ep_run seal open max ss (auth_only seal open max ss evs)) = fst (ep_run seal open max ss evs) /\
+    all_authentic seal open max ss (auth_only seal open max ss evs).
+Proof. intros. split; [apply auth_only_same_state|apply auth_only_all_authentic]. Qed.
+Print Assumptions c10_state_is_authentic_subsequence.
+
+(* C10 "never crashes", session part, at the loop: with an AEAD honest about lengths no transport / control /
+   unknown-type / short / oversized datagram and no Handle call brings the receive goroutine down — only a
+   handshake handler could (their totality is C10's c10_server_step_total); Kravatte-SANSE is honest *)
+Theorem c10_loop_crash_only_in_handshake_handler :
+  forall seal open max H HS st e,
+    open_len_ok open -> l_crashed H st = false -> l_crashed H (srv_step seal open max H HS st e) = true ->
+    exists a raw, e = LDgram a raw /\ classify (sock_read raw) = DHandshake.
+Proof. exact srv_crash_only_in_handshake_handler. Qed.
+Print Assumptions c10_loop_crash_only_in_handshake_handler.
+
+Theorem c10_loop_crash_only_in_handshake_handler_sanse :
+  forall seal max H HS st e,
+    l_crashed H st = false -> l_crashed H (srv_step seal sanse_open max H HS st e) = true ->
+    exists a raw, e = LDgram a raw /\ classify (sock_read raw) = DHandshake.
+Proof. exact srv_crash_only_in_handshake_handler_sanse. Qed.
+Print Assumptions c10_loop_crash_only_in_handshake_handler_sanse.
+
+Theorem c10_client_listen_never_crashes_sanse :
+  forall seal max C CHS evs s s', cli_run seal sanse_open max C CHS (COpen C s) evs <> CCrash C s'.
+Proof. exact cli_never_crashes_sanse. Qed.
+Print Assumptions c10_client_listen_never_crashes_sanse.
+
+(* before its handshake has completed the client has no session a datagram could reach: whatever arrives, a
+   transport packet included, is consumed as the next handshake message (source address ignored) *)
+Theorem c03_client_handshaking_consumes_any_datagram :
+  forall seal open max C CHS c a raw,
+    cli_step seal open max C CHS (CHs C c) (LDgram a raw) =
+    match CHS c (sock_read raw) with inl c' => CHs C c' | inr (Some s) => COpen C s | inr None => CFail C end.
+Proof. exact cli_handshaking_consumes_any_datagram. Qed.
+Print Assumptions c03_client_handshaking_consumes_any_datagram.
+
+(* the hypotheses are satisfiable and the conclusions non-trivial: a server with sessions B and C; B's genuine
+   datagram, C's genuine datagram, a replay, a forgery, B's genuine close under a handshake type / an unknown
+   type / followed by 65600 bytes (truncated to 65535: rejected), a 3-byte datagram, a read on C, B's close *)
+Example c03_loop_nonvacuous :
+  l_crashed unit (srv_run toy_seal toy_open 100 unit ex_HS ex_lst ex_levs) = false /\
+  no_finish toy_seal toy_open 100 unit ex_HS [1; 2; 3; 4] ex_lst ex_levs /\
+  map (fun e => match e with EvIn a p => (a, len p) | _ => (0, 0) end) (evs_for [1; 2; 3; 4] ex_levs) =
+    [(3, 50); (4, 50); (4, 50); (5, 49); (6, 65535); (8, 49)] /\
+  option_map (fun s => (closed s, remote s, queue s, wt (window s)))
+             (lookup (l_tab unit (srv_run toy_seal toy_open 100 unit ex_HS ex_lst ex_levs)) [1; 2; 3; 4]) =
+    Some (true, 8, [[9; 9]], 6) /\
+  option_map (fun s => (closed s, remote s, queue s))
+             (lookup (l_tab unit (srv_run toy_seal toy_open 100 unit ex_HS ex_lst ex_levs)) [9; 9; 9; 9]) =
+    Some (false, 7, []) /\
+  map (fun e => match e with EvIn a _ => a | _ => 0 end) (auth_only toy_seal toy_open 100 exB (evs_for [1; 2; 3; 4] ex_levs)) = [3; 8].
+Proof. exact ex_loop_runs. Qed.
+
+(* ---- MaxPlaintextSize / MaxTotalPacketSize: the inconsistency is real but harmless ---- *)
+
+(* MaxPlaintextSize subtracts MacLen (16) where the tag is TagLen (32): a full-size datagram is 64551 bytes,
+   16 over MaxTotalPacketSize ... *)
+Theorem c03_full_size_datagram_exceeds_max_total_packet_size :
+  max_plaintext_size = max_total_packet_size - header_len - session_id_len - counter_len - mac_len /\
+  max_datagram_len = 64551 /\ max_datagram_len = max_total_packet_size + (tag_len - mac_len).
+Proof. repeat split. Qed.
+Print Assumptions c03_full_size_datagram_exceeds_max_total_packet_size.
+
+(* ... but it fits the receive buffers of Serve, listen and the client's handshake (65535) and the largest UDP
+   payload of either address family, so the socket's truncation is the identity on it *)
+Theorem c03_full_size_datagram_fits_every_receive_buffer :
+  max_datagram_len <= recv_buf_len /\ max_datagram_len <= udp4_max_payload /\ max_datagram_len <= udp6_max_payload /\
+  forall d, len d <= max_datagram_len -> sock_read d = d.
+Proof.
+  destruct max_datagram_fits as (F1&F2&F3). repeat split; try assumption.
+  intros d Hd. apply sock_read_fits. eapply N.le_trans; eassumption.
+Qed.
+Print Assumptions c03_full_size_datagram_fits_every_receive_buffer.
+
+(* for every accepted write — WriteMsg of at most MaxPlaintextSize bytes, Write of ANY size — every datagram
+   handed to the socket is at most 64551 bytes long, reaches the peer's loop untruncated and is a legal UDP
+   payload; no AEAD hypothesis (seal_packet panics unless Seal adds exactly 32 bytes) *)
+Theorem c03_accepted_write_fits_every_receive_buffer :
+  forall seal ss b w,
+    len (sid ss) = 4 -> write seal max_plaintext_size ss b = Some w ->
+    Forall (fun d : dgram => len (fst d) <= max_datagram_len /\ sock_read (fst d) = fst d /\
+                             len (fst d) <= udp4_max_payload) (w_out w).
+Proof. exact write_fits_receive_buffers. Qed.
+Print Assumptions c03_accepted_write_fits_every_receive_buffer.
+
+Theorem c03_accepted_writemsg_fits_every_receive_buffer :
+  forall seal ss m ss' d,
+    len (sid ss) = 4 -> write_msg seal max_plaintext_size ss m = Ok (ss', d) ->
+    len (fst d) <= max_datagram_len /\ sock_read (fst d) = fst d /\ len (fst d) <= udp4_max_payload.
+Proof. exact write_msg_fits_receive_buffers. Qed.
+Print Assumptions c03_accepted_writemsg_fits_every_receive_buffer.
+
+(* the bound for every chunk size: 16 + max + 32 *)
+Theorem c03_write_datagram_length_bound :
+  forall seal max ss b w,
+    len (sid ss) = 4 -> write seal max ss b = Some w ->
+    Forall (fun d : dgram => len (fst d) <= ad_len + max + tag_len) (w_out w).
+Proof. exact write_out_len. Qed.
+Print Assumptions c03_write_datagram_length_bound.
+
+(* non-vacuous: a maximal WriteMsg on the toy AEAD yields a 64551-byte datagram *)
+Example c03_full_size_write_nonvacuous :
+  match write_msg toy_seal max_plaintext_size exA (repeat 0 (N.to_nat max_plaintext_size)) with
+  | Ok (_, d) => len (fst d) = 64551 /\ len (sock_read (fst d)) = 64551
+  | _ => False
+  end.
+Proof. vm_compute. split; reflexivity. Qed.
+
+(* ====================================================================================================== *)
+(* Concurrent writers (Model/SendConc.v): Handle.send's two locks as an interleaving model.  Any number of   *)
+(* goroutines each perform one send — writeLock.Lock; the ss.m section (closed check, sealPacketLocked,       *)
+(* address snapshot) as one atomic step; WriteMsgUDP; Unlock — scheduled in ANY order (a goroutine that finds *)
+(* writeLock taken does not move), interleaved with closes and address changes by the receive side.           *)
+(* ====================================================================================================== *)
+From Hop Require Import SendConc SendConcProofs.
+
+(* for EVERY schedule: the datagrams on the wire, in wire order, carry the consecutive counters count, count+1, ...
+   (uint64), each is header(type,0,0,0,sid, THAT counter) ++ Seal(key, ad = that header, message) of one of the
+   calls — sealed under the counter it carries —, and the session counter has advanced by exactly the number
+   of packets sealed (one more than on the wire while a goroutine is between Seal and WriteMsgUDP) *)
+Theorem c03_concurrent_sends_consecutive_counters :
+  forall seal ss calls sched,
+    let st := crun seal (cinit ss calls) sched in
+    wire_seq seal ss calls (count ss) (map fst (c_wire st)) /\
+    count (c_ss st) = iterc (count ss) (length (c_wire st) + (if existsb sealed (c_thr st) then 1 else 0)).
+Proof. exact concurrent_sends_consecutive_counters. Qed.
+Print Assumptions c03_concurrent_sends_consecutive_counters.
+
+(* below the uint64 wrap the k-th datagram's counter is count + k: pairwise distinct *)
+Theorem c03_concurrent_counters_distinct_below_wrap :
+  forall c k, c + N.of_nat k < 2 ^ 64 -> iterc c k = c + N.of_nat k.
+Proof. exact iterc_plain. Qed.
+Print Assumptions c03_concurrent_counters_distinct_below_wrap.
+
+(* two writers, the second one trying to get in at every point, a roam in between: counters 5 and 6, in wire
+   order; the datagram sealed before the roam still goes to the old address (the snapshot is taken under ss.m) *)
+Example c03_concurrent_writers_example :
+  let st := crun toy_seal (cinit exA [(mt_transport, [1]); (mt_transport, [2])])
+                 [CT 1; CT 0; CT 1; CT 0; CRoam 9; CT 1; CT 0; CT 0; CT 0; CT 0] in
+  map (fun d => (pkt_counter (fst d), snd d)) (c_wire st) = [(5, 1); (6, 9)] /\
+  map fst (c_wire st) = [wire_image toy_seal exA mt_transport 5 [2]; wire_image toy_seal exA mt_transport 6 [1]] /\
+  count (c_ss st) = 7 /\ c_wlock st = None.
+Proof. vm_compute. repeat split; reflexivity. Qed.
+
+(* ====================================================================================================== *)
+(* End-to-end completeness THROUGH the peer's receive loop (Proofs/RecvLoopFaithful.v): on a faithful network   *)
+(* every byte accepted by a write call of any size is delivered -- with the socket's truncation to the receive  *)
+(* buffer and readPacket's dispatch between the wire and the session — restated for MaxPlaintextSize, the bound *)
+(* the code uses (a full-size datagram is 64551 bytes and fits: c03_accepted_write_fits_every_receive_buffer).  *)
+(* ====================================================================================================== *)
+From Hop Require Import RecvLoopFaithful.
+
+Theorem c03_loop_write_delivered_on_faithful_network_under_open_seal :
+  forall seal open max H HS,
+    (forall k ad p, open k ad (seal k ad p) = Some p) ->
+    (forall k ad p, len (seal k ad p) = tag_len + len p) ->
+    open_len_ok open ->
+    forall st A B a b w,
+      l_crashed H st = false -> lookup (l_tab H st) (sid A) = Some B -> in_sync A B ->
+      count A + len b + 1 < lim -> qlen (queue B) + len b + 1 <= qcap B ->
+      write seal max_plaintext_size A b = Some w ->
+      let evs := map (fun d : dgram => LDgram a (fst d)) (w_out w) in
+      w_err w = false /\ w_panic w = false /\ w_n w = len b /\
+      l_crashed H (srv_run seal open max H HS st evs) = false /\
+      exists B', lookup (l_tab H (srv_run seal open max H HS st evs)) (sid A) = Some B' /\
+                 List.concat (queue B') = List.concat (queue B) ++ b /\ rbuf B' = rbuf B /\ remote B' = a.
+Proof. exact srv_loop_write_delivered. Qed.
+Print Assumptions c03_loop_write_delivered_on_faithful_network_under_open_seal.
+
+(* unconditional on Kravatte-SANSE *)
+Theorem c03_loop_write_delivered_on_faithful_network_sanse :
+  forall max H HS st A B a b w,
+    good_key (key_send A) ->
+    l_crashed H st = false -> lookup (l_tab H st) (sid A) = Some B -> in_sync A B ->
+    count A + len b + 1 < lim -> qlen (queue B) + len b + 1 <= qcap B ->
+    write sanse_seal max_plaintext_size A b = Some w ->
+    let evs := map (fun d : dgram => LDgram a (fst d)) (w_out w) in
+    w_err w = false /\ w_n w = len b /\
+    l_crashed H (srv_run sanse_seal sanse_open max H HS st evs) = false /\
+    exists B', lookup (l_tab H (srv_run sanse_seal sanse_open max H HS st evs)) (sid A) = Some B' /\
+               List.concat (queue B') = List.concat (queue B) ++ b /\ remote B' = a.
+Proof. exact srv_loop_write_delivered_sanse. Qed.
+Print Assumptions c03_loop_write_delivered_on_faithful_network_sanse.
+
+(* the hypotheses are satisfiable: the toy AEAD is correct, adds 32 bytes and is honest about lengths; exA / exB are
+   in sync; B sits in a table next to C *)
+Example c03_loop_write_delivered_nonvacuous :
+  (forall k ad p, toy_open k ad (toy_seal k ad p) = Some p) /\
+  (forall k ad p, len (toy_seal k ad p) = tag_len + len p) /\ open_len_ok toy_open /\
+  in_sync exA exB /\ lookup (l_tab unit ex_lst) (sid exA) = Some exB /\
+  match write toy_seal max_plaintext_size exA [10; 11; 12] with
+  | Some w =>
+    option_map queue (lookup (l_tab unit (srv_run toy_seal toy_open 100 unit ex_HS ex_lst
+                                            (map (fun d : dgram => LDgram 9 (fst d)) (w_out w)))) [1; 2; 3; 4]) = Some [[10; 11; 12]]
+  | None => False
+  end.
+Proof.
+  split; [exact toy_open_seal|]. split; [exact toy_seal_len|]. split; [exact toy_open_len_ok|].
+  split; [exact ex_in_sync|]. split; vm_compute; reflexivity.
+Qed.
